@@ -37,7 +37,8 @@ impl ParseError {
         let line_start = compute_line_number(initial, input.current_token_start());
         // Assume the error span is only for the first `char`.
         // When we'll implement
-        let end = (offset + 1..)
+        // An error at the end of the input has no `char` to point at.
+        let end = (offset + 1..=input.len())
             .find(|e| input.is_char_boundary(*e))
             .unwrap_or(offset);
         Self(Box::new(ParseErrorImpl {
